@@ -26,7 +26,7 @@ ALL = ['mean', 'max', 'min', 'sum', 'std', 'var', 'count']
 
 def jobs(tier, seed):
     out = []
-    for st in ALL + ['user-range']:
+    for st in ALL + ['user-range', 'user-size']:
         out.append({'name': 'stats-1x3-%s' % st, 'shape': [1, 3], 'stats': [st], 'sel': 'none', 'ret': 'pandas.DataFrame', 'inf': True})
     out.append({'name': 'stats-1x3-default-list', 'shape': [1, 3], 'stats': None, 'sel': 'none', 'ret': 'pandas.DataFrame', 'inf': False})
     for sel in ('one', 'two'):
@@ -55,7 +55,7 @@ def _check_stat(ctx, st, got, inz, vl, info=None):
     sm = Sum([ite(c, v, 0.0) for c, v in zip(inz, vl)])
     empty = cnt == 0
     label = 'stat-' + st
-    if st == 'count':
+    if st in ('count', 'user-size'):
         ctx.check(label, Or(And(empty, isnan(got)), And(Not(empty), got == cnt)), info)
     elif st == 'sum':
         ctx.check(label, Or(And(empty, isnan(got)), And(Not(empty), ctx.close(got, sm, TOL64))), info)
@@ -116,6 +116,9 @@ def body(ctx, job):
     elif stats == ['user-range']:
         names = ['user-range']
         kw['stats_funcs'] = {'user-range': userfuncs.range_reducer}
+    elif stats == ['user-size']:
+        names = ['user-size']
+        kw['stats_funcs'] = {'user-size': userfuncs.size_reducer}
     else:
         names = list(stats)
         kw['stats_funcs'] = list(stats)
